@@ -276,6 +276,32 @@ impl RefGraph {
         }
     }
 
+    /// The read as `data()` does it, but the collection is whatever the implementation did.
+    pub fn data_adopt(&mut self, v: usize, removed: &[usize]) -> ReadOutcome {
+        let (value, first_read) = {
+            let m = self.present.get_mut(&v).unwrap();
+            let first = m.unread;
+            m.unread = false;
+            (m.data.clone(), first)
+        };
+        for r in removed {
+            if let Some(mv) = self.present.remove(r) {
+                self.collected_ever.insert(*r);
+                if let Some(g) = mv.group {
+                    let empty = self.groups.get_mut(&g).is_some_and(|s| {
+                        s.remove(r);
+                        s.is_empty()
+                    });
+                    if empty {
+                        self.groups.remove(&g);
+                        self.groups_died += 1;
+                    }
+                }
+            }
+        }
+        ReadOutcome { value, first_read, removed: removed.to_vec() }
+    }
+
     /// Adoptive graphs only: take over a collection the implementation made.
     pub fn adopt_removed(&mut self, removed: &[usize]) {
         for r in removed {
